@@ -244,7 +244,7 @@ func oddTV(rt *rapid.T, in *model.Inst, label string) (*gpb.TypedValue, string) 
 	if in != nil && in.F != nil && in.F.Type != nil && rapid.IntRange(0, 1).Draw(rt, label+".matchkind") == 0 {
 		switch k := in.F.Type.VKind(); {
 		case k == model.KDec:
-			kind = rapid.SampledFrom([]string{"decimal", "float", "double"}).Draw(rt, label+".deckind")
+			kind = rapid.SampledFrom([]string{"decimal", "decimal", "float", "double"}).Draw(rt, label+".deckind")
 		case k.Signed():
 			kind = "int"
 		case k.Unsigned():
